@@ -30,6 +30,10 @@ macro_rules! with_name {
     };
 }
 
+/// `seek_end` arguments POSITIVE_END + n (0 < n < 2^32) mean SeekFrom::End(+n) in the embedded-io flavour (a position
+/// behind the end; the other flavours cannot express it and refuse the number as too large)
+pub const POSITIVE_END: u64 = 1 << 62;
+
 pub trait Fs {
     fn limits(&self) -> (usize, usize, usize);
     fn open_volume(&self, idx: usize, fl: u8) -> Result<RawVolume, LibErr>;
@@ -58,6 +62,9 @@ pub trait Fs {
     fn make_dir(&self, d: RawDirectory, name: &Name, fl: u8) -> Result<(), LibErr>;
     fn has_open_handles(&self) -> bool;
     fn volume_label(&self, v: RawVolume) -> Result<Option<Vec<u8>>, LibErr>;
+    /// `VolumeManager::device()` with a closure that does nothing: what a caller does to reach the driver after the
+    /// medium was exchanged (the harness exchanges the medium itself, through the shared reference it kept)
+    fn touch_device(&self);
 }
 
 fn to_u32(x: u64) -> Result<u32, LibErr> {
@@ -279,7 +286,13 @@ where
             _ => {
                 let mut file = f.to_file(self);
                 // `back` bytes before the end is SeekFrom::End(-back)
-                let arg = if back > i64::MAX as u64 { i64::MIN } else { -(back as i64) };
+                let arg = if (POSITIVE_END + 1..POSITIVE_END + (1 << 32)).contains(&back) {
+                    (back - POSITIVE_END) as i64
+                } else if back > i64::MAX as u64 {
+                    i64::MIN
+                } else {
+                    -(back as i64)
+                };
                 let r = embedded_io::Seek::seek(&mut file, embedded_io::SeekFrom::End(arg));
                 let _ = file.to_raw_file();
                 r.map(Some)
@@ -347,6 +360,15 @@ where
     }
     fn volume_label(&self, v: RawVolume) -> Result<Option<Vec<u8>>, LibErr> {
         self.get_root_volume_label(v).map(|o| o.map(|n| n.name().to_vec()))
+    }
+    fn touch_device(&self) {
+        // `device()` is declared to return the manager's time-source type (its `T`), so the closure has to produce
+        // a `&SimClock`; one leaked per thread serves every call
+        thread_local! {
+            static SPARE: &'static SimClock = Box::leak(Box::new(SimClock::new(0)));
+        }
+        let spare: &'static SimClock = SPARE.with(|c| *c);
+        let _ = self.device(|_d| spare);
     }
 }
 
